@@ -11,7 +11,7 @@ ROOT = os.path.dirname(os.path.dirname(os.path.abspath(__file__)))
 EXPECT_NOT_CAUGHT = {"C04-b": "neutralised by fix 8b8a59e (see seeded/README.md)",
                      "C14-d": "neutralised by fix 7dae99d (see seeded/README.md)"}
 # seeds whose change breaks another property than the one the agent was given: run against that check
-RUN_AGAINST = {"C01-d": "C05", "C09-d": "C11"}
+RUN_AGAINST = {"C01-d": "C05", "C09-d": "C11", "C12-h": "C11"}
 
 def main():
     ids = sys.argv[1:] or sorted(os.path.basename(os.path.dirname(p)) for p in glob.glob(os.path.join(ROOT, "seeded", "*", "meta.json")))
